@@ -126,7 +126,7 @@ func dischargeAll(workDir string, obls []*Obligation, timeoutS int) {
 		go func(i int, o *Obligation) {
 			defer wg.Done()
 			defer func() { <-sem }()
-			script := o.vc.script(o.Upto, o.Path, o.Goal, false)
+			script := o.vc.scriptOpt(o.Upto, o.Path, o.Goal, false, o.Cover)
 			o.Result = solve(workDir, fmt.Sprintf("o%04d", i), script, timeoutS)
 			o.Result.Script = filepath.Join(workDir, fmt.Sprintf("o%04d.smt2", i))
 		}(i, o)
